@@ -85,6 +85,13 @@ func (c c13case) key() string { return fmt.Sprintf("%s/T=%s", c.class(), c.T()) 
 // bound is the latest acceptable return: T + max(300 ms, T).
 func (c c13case) bound() time.Duration {
 	a := c13FloorMS * time.Millisecond
+	if strings.HasPrefix(c.Pattern, "hangup:") {
+		// This peer exists to expose a second timeout budget after a stall
+		// d < T: the call is then back by T+d < 2T, which the T-proportional
+		// part of the allowance would always hide.  Flat 300 ms here (the
+		// largest min-of-3 overshoot seen under heavy load is about 5 ms).
+		return c.T() + a
+	}
 	if c.T() > a {
 		a = c.T()
 	}
@@ -100,6 +107,18 @@ func (c c13case) lateDelay() time.Duration {
 		return 2 * c.T()
 	case "late:2T+400ms": // beyond the allowance: an ignored deadline is late on every attempt
 		return 2*c.T() + 400*time.Millisecond
+	}
+	return 0
+}
+
+// hangDelay is how long the "hangup" HTTP peer sits on the first request
+// before it closes the connection without answering (0 < d < T).
+func (c c13case) hangDelay() time.Duration {
+	switch c.Pattern {
+	case "hangup:0.8T":
+		return c.T() * 4 / 5
+	case "hangup:T/2":
+		return c.T() / 2
 	}
 	return 0
 }
@@ -132,6 +151,23 @@ var c13variants = []struct{ tr, op, pat, variant string }{
 }
 
 const c13variantQuick = 5
+
+// cases with hand-picked timeouts (ms): the hangup peer is only decisive when
+// its stall d exceeds the 300 ms allowance; the two-step adapter cases are
+// cheap on a healthy tree and cost 10 s each when the second call parks.
+var c13picked = []struct {
+	tr, op, pat     string
+	quick, thorough []int
+}{
+	{"http", "request", "hangup:0.8T", []int{500, 1000}, []int{400, 500, 750, 1000, 1500}},
+	{"http", "oneway", "hangup:0.8T", []int{500}, []int{400, 500, 750, 1000, 1500}},
+	{"http", "request", "hangup:T/2", nil, []int{100, 700, 1000, 1500}},
+	{"http", "oneway", "hangup:T/2", nil, []int{700, 1000}},
+	{"adapter", "request", "afterstalledwrite", []int{5, 100}, []int{1, 5, 20, 50, 100, 250, 500, 1000}},
+	{"adapter", "oneway", "afterstalledwrite", []int{20, 250}, []int{1, 5, 20, 50, 100, 250, 500, 1000}},
+	{"adapter", "request", "afterstalledflush", []int{50}, []int{1, 5, 20, 50, 100, 250, 500, 1000}},
+	{"adapter", "oneway", "afterstalledflush", nil, []int{1, 5, 20, 50, 100, 250, 500, 1000}},
+}
 
 // the stall patterns per transport and operation
 var c13combos = []combo{
@@ -266,6 +302,15 @@ func c13cases(rng *rand.Rand, thorough bool) (main, sub, controls []c13case) {
 			}
 		}
 	}
+	for _, p := range c13picked {
+		ts := p.quick
+		if thorough {
+			ts = p.thorough
+		}
+		for _, t := range ts {
+			main = append(main, c13case{Transport: p.tr, Op: p.op, Pattern: p.pat, TimeoutNS: ms(t)})
+		}
+	}
 	rng.Shuffle(len(main), func(i, j int) { main[i], main[j] = main[j], main[i] })
 	// cases that cost 10 s per attempt when they fail run in the side lane
 	keep := main[:0]
@@ -317,7 +362,7 @@ func runC13(tier string, args []string) int {
 		os.Setenv("VERIF_OUT", ev.ScratchDir()) // a replay never overwrites the committed evidence
 	}
 	run := ev.New("C13", tier, "exploration")
-	run.Rule("case = (transport, timeout T, peer stall pattern, Request|Oneway); adapter over a scripted TTransport (silent, response late by T+50ms / 2T / 2T+400ms, Write blocked for 5T or for good, Flush blocked with and without honouring ctx, underlying Open() stalled for 5T / for good while the call is issued), NATS on an embedded broker (subscriber that never replies, or replies late, or the client-broker TCP connection black-holed by a proxy after a healthy control request), or PublishRequest refused by a 4 KiB max_payload broker followed by a request reusing the FContext), HTTP against httptest (handler answering late, never, or stalling the body; http.Client without and with a Timeout of its own above / below T); each case attempted 3 times on fresh transports, minimum elapsed compared with T+max(300ms,T); distinct = (transport, op, pattern, T)")
+	run.Rule("case = (transport, timeout T, peer stall pattern, Request|Oneway); adapter over a scripted TTransport (silent, response late by T+50ms / 2T / 2T+400ms, Write blocked for 5T or for good, Flush blocked with and without honouring ctx, underlying Open() stalled for 5T / for good while the call is issued), NATS on an embedded broker (subscriber that never replies, or replies late, or the client-broker TCP connection black-holed by a proxy after a healthy control request), or PublishRequest refused by a 4 KiB max_payload broker followed by a request reusing the FContext), a second call issued while the send of an earlier call on the same transport is still stalled, HTTP against httptest (handler answering late, never, stalling the body, or stalling d<T then closing the connection unanswered and staying silent on any further connection - bound T+300ms flat there; http.Client without and with a Timeout of its own above / below T); each case attempted 3 times on fresh transports, minimum elapsed compared with T+max(300ms,T); distinct = (transport, op, pattern, T)")
 	run.Assume("monotonic clock of the Go runtime; a delay present in all 3 attempts of a case is attributed to the code, not to scheduling")
 	run.Assume("rig.ScriptTransport, the embedded nats-server and net/http/httptest behave as scripted")
 	run.Assume("goroutine ids parsed from runtime.Stack identify the calling goroutine in the full dump")
@@ -467,6 +512,8 @@ func runCase(env *c13env, c c13case, body func() []byte) caseResult {
 		case "adapter":
 			if strings.HasPrefix(c.Pattern, "stallconnect:") {
 				a = attemptAdapterStalledConnect(c, body())
+			} else if strings.HasPrefix(c.Pattern, "afterstalled") {
+				a = attemptAdapterAfterStalledSend(c, body())
 			} else {
 				a = attemptAdapter(c, body())
 			}
@@ -613,6 +660,9 @@ func judge(run *ev.Run, st *c13stats, c c13case, res *caseResult) {
 		if strings.HasPrefix(c.Pattern, "stallconnect:") || c.Pattern == "publishrefused" {
 			break // transport not open yet / send refused at once: any error class is acceptable, only the time bound is asserted
 		}
+		if strings.HasPrefix(c.Pattern, "hangup:") && !a.Success {
+			continue // the peer hung up before T: whatever error reports that is acceptable
+		}
 		if a.AnsweredBeforeReturn {
 			run.Add("attempts_response_raced_timeout", 1)
 			continue // response racing the timeout: both outcomes are legal
@@ -631,6 +681,29 @@ func judge(run *ev.Run, st *c13stats, c c13case, res *caseResult) {
 			run.Violation("C13:registration-left:"+c.Transport+"/"+c.Op,
 				fmt.Sprintf("%d registration(s) left in the registry of the %s transport after %s returned (%s)", a.RegAfterPoll, c.Transport, c.Op, a.ErrClass), witness(nil))
 			break
+		}
+	}
+
+	// 4a. two-step cases: the earlier call (whose send is stalled) must itself be on time
+	if strings.HasPrefix(c.Pattern, "afterstalled") {
+		minFirst := time.Duration(1<<62 - 1)
+		for _, a := range res.attempts {
+			if f := a.First; f != nil && f.Returned {
+				if el := time.Duration(f.ElapsedNS); el < minFirst {
+					minFirst = el
+				}
+				st.mu.Lock()
+				st.overshootMS[c.class()+"/first"] = append(st.overshootMS[c.class()+"/first"], float64(time.Duration(f.ElapsedNS)-c.T())/1e6)
+				st.mu.Unlock()
+				run.Add("attempts", 1)
+				if !f.TimedOut {
+					run.Violation(sig("wrong-error-first-call"), fmt.Sprintf("the first adapter request (send stalled) returned %s, expected TIMED_OUT", f.ErrClass), witness(nil))
+					break
+				}
+			}
+		}
+		if minFirst < time.Duration(1<<62-1) && minFirst > c.bound() {
+			run.Violation(sig("late-return-first-call"), fmt.Sprintf("the first adapter request (send stalled, timeout %s) returned after %s at best (bound %s)", c.T(), minFirst.Round(time.Microsecond), c.bound()), witness(nil))
 		}
 	}
 
